@@ -50,14 +50,16 @@ type sliceGetter func(req *protocol.Request, params param.Params, key string, de
 
 func pathSlice(req *protocol.Request, params param.Params, key string, defaultValue ...string) (ret []string) {
 	var value string
+	var exist bool
 	if params != nil {
-		value, _ = params.Get(key)
+		value, exist = params.Get(key)
 	}
 
 	if len(value) == 0 && len(defaultValue) != 0 {
 		value = defaultValue[0]
 	}
-	if len(value) != 0 {
+	// (a parameter that is present with an empty value is present, as for a scalar field)
+	if len(value) != 0 || exist {
 		ret = append(ret, value)
 	}
 
